@@ -173,3 +173,20 @@ Proof.
   - eapply Forall_impl; [|exact H6]. cbn. intros t [E _]. assumption.
   - eapply Forall_impl; [|exact H6]. cbn. intros t [_ E]. assumption.
 Qed.
+
+(* the per-invocation monitor, clause by clause (the replay of the batches on the workers stays a computation) *)
+Lemma mon_invocation_iff : forall wd o, mon_invocation wd o = true <->
+  oi_cancelled o = map t_id (filter (hopeless wd (oi_now o)) (oi_offered o)) /\
+  mon_batches wd (oi_now o) (oi_pools o) (oi_batches o) = true /\
+  NoDup (oi_cancelled o ++ oi_placed o) /\
+  (forall i, In i (oi_cancelled o ++ oi_placed o) -> In i (map t_id (oi_offered o))) /\
+  (forall b t, In b (oi_batches o) -> In t (ob_tasks b) -> hopeless wd (oi_now o) t = false).
+Proof.
+  intros wd o. unfold mon_invocation. rewrite !andb_true_iff, mon_cancel_iff, znodup_iff, !forallb_forall. split.
+  - intros [[[[H1 H2] H3] H4] H5]. repeat split; try assumption.
+    + intros i Hi. apply zmem_iff. apply H4. assumption.
+    + intros b t Hb Ht. specialize (H5 b Hb). rewrite forallb_forall in H5. specialize (H5 t Ht). destruct (hopeless wd (oi_now o) t); [discriminate|reflexivity].
+  - intros [H1 [H2 [H3 [H4 H5]]]]. repeat split; try assumption.
+    + intros i Hi. apply zmem_iff. apply H4. assumption.
+    + intros b Hb. rewrite forallb_forall. intros t Ht. rewrite (H5 b t Hb Ht). reflexivity.
+Qed.
